@@ -124,12 +124,15 @@ func (t *openTelemetryTransport) Submit(op *runtime.ClientOperation) (interface{
 		}
 	}()
 
-	op.Params = runtime.ClientRequestWriterFunc(func(req runtime.ClientRequest, reg strfmt.Registry) error {
+	// the caller's operation is left untouched: the instrumented writer and reader go on a copy
+	traced := *op
+
+	traced.Params = runtime.ClientRequestWriterFunc(func(req runtime.ClientRequest, reg strfmt.Registry) error {
 		span = t.newOpenTelemetrySpan(op, req.GetHeaderParams())
 		return params.WriteToRequest(req, reg)
 	})
 
-	op.Reader = runtime.ClientResponseReaderFunc(func(response runtime.ClientResponse, consumer runtime.Consumer) (interface{}, error) {
+	traced.Reader = runtime.ClientResponseReaderFunc(func(response runtime.ClientResponse, consumer runtime.Consumer) (interface{}, error) {
 		if span != nil {
 			statusCode := response.Code()
 			// NOTE: this is replaced by semconv.HTTPResponseStatusCode in semconv v1.21
@@ -142,7 +145,7 @@ func (t *openTelemetryTransport) Submit(op *runtime.ClientOperation) (interface{
 		return reader.ReadResponse(response, consumer)
 	})
 
-	submit, err := t.transport.Submit(op)
+	submit, err := t.transport.Submit(&traced)
 	if err != nil && span != nil {
 		span.RecordError(err)
 		span.SetStatus(codes.Error, err.Error())
